@@ -60,6 +60,9 @@ type Step struct {
 	// Oversize (data): the sender does not cut the frame to the SETTINGS_MAX_FRAME_SIZE it was told (its view of the
 	// limit may be stale, or it simply does not care): whatever size arrives, the relay must cut it for the receiver.
 	Oversize bool `json:"oversize,omitempty"`
+	// Dup (settings): the frame lists each identifier twice, first with another value, then with the one that counts
+	// (RFC 9113 6.5.3: the values are processed in the order they appear - the last one stands)
+	Dup bool `json:"dup,omitempty"`
 }
 
 type H2Case struct {
@@ -207,6 +210,7 @@ func genSteps(t *rapid.T, c *H2Case, flow bool) {
 			s.Inc = rapid.SampledFrom([]int{1, 100, 1000, 16384, 65535, 200000}).Draw(t, "inc")
 		case k < 16:
 			s.Op = "settings"
+			s.Dup = rapid.IntRange(0, 3).Draw(t, "dupsetting") == 0
 			switch rapid.IntRange(0, 3).Draw(t, "which") {
 			case 0:
 				s.InitWin = rapid.SampledFrom([]int{0, 1, 1000, 20000, 65535, 100000}).Draw(t, "initwin")
@@ -737,7 +741,7 @@ func (r *h2run) barrier(from string) bool {
 	return true
 }
 
-func (r *h2run) sendSettings(side string, initWin, maxFrame, tableSz int) bool {
+func (r *h2run) sendSettings(side string, initWin, maxFrame, tableSz int, dup ...bool) bool {
 	self, _, _ := r.ep(side)
 	var ss []http2.Setting
 	self.mu.Lock()
@@ -779,6 +783,22 @@ func (r *h2run) sendSettings(side string, initWin, maxFrame, tableSz int) bool {
 			self.tableLower = tableSz
 		}
 		self.tableAnn = tableSz
+	}
+	if len(dup) > 0 && dup[0] {
+		var first []http2.Setting
+		for _, x := range ss {
+			decoy := x
+			switch x.ID {
+			case http2.SettingInitialWindowSize:
+				decoy.Val = max(x.Val, 65535) + 50000
+			case http2.SettingMaxFrameSize:
+				decoy.Val = 1 << 20
+			case http2.SettingHeaderTableSize:
+				decoy.Val = 65536
+			}
+			first = append(first, decoy)
+		}
+		ss = append(first, ss...)
 	}
 	self.settingsSent++
 	self.mu.Unlock()
@@ -936,7 +956,7 @@ func (r *h2run) step(c H2Case, s Step) bool {
 		}
 		self.wmu.Unlock()
 	case "settings":
-		return r.sendSettings(s.Side, s.InitWin, s.MaxFrame, s.TableSz)
+		return r.sendSettings(s.Side, s.InitWin, s.MaxFrame, s.TableSz, s.Dup)
 	case "ping":
 		var d [8]byte
 		d[0], d[1] = byte(s.Code), s.Side[0]
@@ -1407,6 +1427,9 @@ func classifyH2(c H2Case) (bool, string, []string) {
 			sides[s.Side] = true
 		case "settings":
 			sett = true
+			if s.Dup {
+				cls = append(cls, "setting-listed-twice")
+			}
 			if s.TableSz >= 0 {
 				cls = append(cls, "table-size-change")
 			}
